@@ -22,7 +22,8 @@ EXTENDS Integers, Sequences, FiniteSets, Json, TLC
 CONSTANTS Slots,     \* e.g. 1..3
           Fams,      \* subset of {"dv", "csr"}
           Depth,     \* history length at which a behaviour is emitted
-          EmitOn     \* TRUE: print behaviours (generation runs); FALSE: pure model checking
+          EmitOn,    \* TRUE: print behaviours (generation runs); FALSE: pure model checking
+          Ops        \* the actions enabled in this run (focus), e.g. {"create", "clone", ...}; {"all"} = everything
 
 VARIABLES slot,      \* slot id -> [live, fam, ty, foreign, arr]   arr: sequence of [k, c, n, off]
           pool,      \* chunk id -> [refs, n, tok]     (live chunks only; DOMAIN pool = live chunk ids)
@@ -113,12 +114,13 @@ Init == /\ slot = [s \in Slots |-> Free] /\ pool = <<>> /\ next = 1 /\ hist = <<
 Step == Len(hist) + 1
 
 \* ---- constructors -----------------------------------------------------------------------------
-Shapes(fam) == IF fam = "dv" THEN {"n3", "n0"} ELSE {"full", "nz0", "bare"}
+Shapes(fam) == IF fam = "dv" THEN {"n3", "n0"} ELSE {"full", "wide", "nz0", "bare"}
 \* arrays of a freshly constructed container: <<kind, size>> list
 Layout(fam, var) ==
   CASE fam = "dv" /\ var = "n3"    -> <<<<"el", 3>>>>
     [] fam = "dv" /\ var = "n0"    -> <<>>                                           \* DenseVector(0): returns before allocating, no array
     [] fam = "csr" /\ var = "full" -> <<<<"el", 3>>, <<"ix", 3>>, <<"ix", 3>>>>        \* 2x3, 3 entries: val, col_ind, row_ptr
+    [] fam = "csr" /\ var = "wide" -> <<<<"el", 5>>, <<"ix", 5>>, <<"ix", 3>>>>        \* 2x3, 5 entries
     [] fam = "csr" /\ var = "nz0"  -> <<<<"el", 0>>, <<"ix", 0>>, <<"ix", 3>>>>        \* entry-free but allocated: CSR(rows, cols, 0)
     [] fam = "csr" /\ var = "bare" -> <<>>                                           \* dimension-only constructor: no arrays
 
@@ -146,7 +148,7 @@ AssignFrom(w, arr, ty1, ty2) ==
 CloneSame(w, arr, mode) == BuildArr(w, arr, mode, <<>>)
 
 Clone(src, dst, mode) ==
-  /\ src # dst /\ slot[src].live
+  /\ src # dst /\ slot[src].live /\ slot[src].fam # "lay"
   /\ (slot[dst].live => slot[dst].fam = slot[src].fam)
   /\ SafeRelease(dst)
   /\ (slot[src].foreign => mode = "deep")                    \* XASSERT: ranged sources must be cloned deep
@@ -165,6 +167,7 @@ Clone(src, dst, mode) ==
 \* ---- convert (assign) -------------------------------------------------------------------------
 Convert(src, dst) ==
   /\ src # dst /\ slot[src].live /\ ~slot[src].foreign          \* XASSERT: no foreign-memory sources
+  /\ slot[src].fam # "lay"
   /\ SafeRelease(dst)
   /\ (slot[dst].live => slot[dst].fam = slot[src].fam)
   /\ \E ty2 \in (IF slot[dst].live THEN {slot[dst].ty} ELSE Types) :
@@ -175,7 +178,7 @@ Convert(src, dst) ==
 
 \* ---- move / move constructor ------------------------------------------------------------------
 Move(src, dst) ==
-  /\ src # dst /\ slot[src].live
+  /\ src # dst /\ slot[src].live /\ slot[src].fam # "lay"
   /\ IF slot[dst].live THEN slot[dst].fam = slot[src].fam /\ slot[dst].ty = slot[src].ty ELSE TRUE
   /\ SafeRelease(dst)
   /\ LET w1 == ReleaseOwn(W0, dst)
@@ -194,7 +197,7 @@ Range(src, dst) ==
 
 \* ---- matrix built on another matrix' layout: shares the index arrays, own value array ---------
 FromLayout(src, dst) ==
-  /\ src # dst /\ slot[src].live /\ ~slot[dst].live /\ slot[src].fam = "csr"
+  /\ src # dst /\ slot[src].live /\ ~slot[dst].live /\ slot[src].fam \in {"csr", "lay"}
   /\ ~slot[src].shell                       \* a cleared / moved-from container has no dimensions: layout() is not defined
   /\ \E ty2 \in {t \in Types : SameIT(t, slot[src].ty)} :
        LET ixs == SelectSeq(slot[src].arr, LAMBDA a : a.k = "ix")
@@ -205,9 +208,37 @@ FromLayout(src, dst) ==
                                          arr |-> <<[k |-> "el", c |-> r.c, n |-> nnz, off |-> 0]>> \o ixs]]
        IN Commit(r.w, ns, "fromlayout", [src |-> src, dst |-> dst, ty |-> ty2])
 
+\* ---- SparseLayout objects: first-class holders of references to the index arrays -----------------
+\* (fam "lay"; ty 1 = index type u64, 3 = u32).  TakeLayout: L = M.layout(), stored by move construction.
+IxOf(arr) == SelectSeq(arr, LAMBDA a : a.k = "ix")
+TakeLayout(src, dst) ==
+  /\ src # dst /\ slot[src].live /\ ~slot[dst].live /\ slot[src].fam = "csr" /\ ~slot[src].shell
+  /\ LET ixs == IxOf(slot[src].arr)
+         ns == [slot EXCEPT ![dst] = [live |-> TRUE, fam |-> "lay", ty |-> IF SameIT(slot[src].ty, 1) THEN 1 ELSE 3, foreign |-> FALSE,
+                                      shell |-> FALSE, arr |-> ixs]]
+     IN Commit(IncrArr(W0, ixs), ns, "takelayout", [src |-> src, dst |-> dst])
+
+\* M = L (SparseMatrixCSR::operator=(const SparseLayout&)): drop everything M owns, share L's index arrays, own value array
+AssignLayout(src, dst) ==
+  /\ src # dst /\ slot[src].live /\ slot[src].fam = "lay" /\ ~slot[src].shell /\ slot[dst].live /\ slot[dst].fam = "csr" /\ ~slot[dst].shell
+  /\ SameIT(slot[src].ty, slot[dst].ty) /\ SafeRelease(dst)
+  /\ LET ixs == slot[src].arr
+         nnz == IF ixs = <<>> THEN 0 ELSE ixs[1].n
+         w1  == IncrArr(ReleaseOwn(W0, dst), ixs)
+         r   == Alloc(w1, nnz, Undef)
+         ns  == [slot EXCEPT ![dst] = [slot[dst] EXCEPT !.arr = <<[k |-> "el", c |-> r.c, n |-> nnz, off |-> 0]>> \o ixs]]
+     IN Commit(r.w, ns, "assignlayout", [src |-> src, dst |-> dst])
+
+\* L2 = std::move(L1): L2 drops its own references and takes over L1's; L1 is left empty
+MoveLayout(src, dst) ==
+  /\ src # dst /\ slot[src].live /\ slot[src].fam = "lay" /\ slot[dst].live /\ slot[dst].fam = "lay" /\ slot[src].ty = slot[dst].ty
+  /\ LET w1 == ReleaseOwn(W0, dst)
+         ns == [slot EXCEPT ![dst] = [slot[dst] EXCEPT !.arr = slot[src].arr, !.shell = slot[src].shell], ![src] = [slot[src] EXCEPT !.arr = <<>>, !.shell = TRUE]]   \* the moved-from layout has no dimensions any more
+     IN Commit(w1, ns, "movelayout", [src |-> src, dst |-> dst])
+
 \* ---- clear / destroy / write ------------------------------------------------------------------
 Clear(s) ==
-  /\ slot[s].live /\ SafeRelease(s)
+  /\ slot[s].live /\ SafeRelease(s) /\ slot[s].fam # "lay"
   /\ LET w1 == ReleaseOwn(W0, s)
          ns == [slot EXCEPT ![s] = [slot[s] EXCEPT !.arr = <<>>, !.foreign = FALSE, !.shell = TRUE]]
      IN KeepsOwners(w1, ns) /\ Commit(w1, ns, "clear", [s |-> s])
@@ -227,12 +258,19 @@ Poke(s) ==
          w1 == [W0 EXCEPT !.pool = [c \in DOMAIN pool |-> IF c \in cs THEN [pool[c] EXCEPT !.tok = 200 + Step] ELSE pool[c]]]
      IN Commit(w1, slot, "poke", [s |-> s, tok |-> 200 + Step])
 
+On(op) == "all" \in Ops \/ op \in Ops
 Next ==
   /\ Len(hist) < Depth
-  /\ \/ \E s \in Slots, fam \in Fams : \E var \in Shapes(fam), ty \in Types : Create(s, fam, var, ty)
-     \/ \E s \in Slots, t \in Slots : \E m \in Modes : Clone(s, t, m)
-     \/ \E s \in Slots, t \in Slots : Convert(s, t) \/ Move(s, t) \/ Range(s, t) \/ FromLayout(s, t)
-     \/ \E s \in Slots : Clear(s) \/ Destroy(s) \/ Poke(s)
+  /\ \/ On("create") /\ \E s \in Slots, fam \in Fams : \E var \in Shapes(fam), ty \in Types :
+            ("all" \in Ops \/ (ty = 1 /\ var \in {"full", "wide", "n3"})) /\ Create(s, fam, var, ty)
+     \/ On("clone") /\ \E s \in Slots, t \in Slots : \E m \in Modes : Clone(s, t, m)
+     \/ On("convert") /\ \E s \in Slots, t \in Slots : Convert(s, t)
+     \/ On("move") /\ \E s \in Slots, t \in Slots : Move(s, t)
+     \/ On("range") /\ \E s \in Slots, t \in Slots : Range(s, t)
+     \/ On("layout") /\ "csr" \in Fams /\ \E s \in Slots, t \in Slots : FromLayout(s, t) \/ TakeLayout(s, t) \/ AssignLayout(s, t) \/ MoveLayout(s, t)
+     \/ On("clear") /\ \E s \in Slots : Clear(s)
+     \/ On("destroy") /\ \E s \in Slots : Destroy(s)
+     \/ On("poke") /\ \E s \in Slots : Poke(s)
 Spec == Init /\ [][Next]_vars
 
 (***************************************************************************)
@@ -244,7 +282,7 @@ NoLeak == \A c \in DOMAIN pool : pool[c].refs >= 1 /\ OwnRefs(c) >= 1
 NoDangling == \A s \in Slots : slot[s].live => \A i \in 1..Len(slot[s].arr) : slot[s].arr[i].c = 0 \/ slot[s].arr[i].c \in DOMAIN pool
 EmptyAtEnd == (\A s \in Slots : ~slot[s].live) => DOMAIN pool = {}
 NullNeverCounted == 0 \notin DOMAIN pool
-TypeOK == \A s \in Slots : slot[s].live => slot[s].fam \in Fams /\ slot[s].ty \in Types
+TypeOK == \A s \in Slots : slot[s].live => slot[s].fam \in Fams \cup {"lay"} /\ slot[s].ty \in Types
 
 \* ---- emission: one behaviour per state at the depth bound -------------------------------------
 Emit == (EmitOn /\ Len(hist) = Depth) => PrintT(ToJson([steps |-> hist]))
